@@ -457,6 +457,63 @@ def notrace_from_environment(ctx):
         api.load_plugins = saved_load
 
 
+def failing_delivery_at_shutdown(ctx):
+    """A delivery that the service refuses is pending when shutdown begins: shutdown drains it (a failure is an end too) and afterwards
+    the agent sends nothing more.  Real PushService / TaskHandler; the stub raises grpc.RpcError on every send."""
+    import time as _t
+    import grpc
+    import deep.api.deep as api
+    import deep.push.push_service as ps
+    import deep.push as push_mod
+    from deep.config.config_service import ConfigService
+    from deep.config.tracepoint_config import TracepointConfigService
+    attempts = []
+
+    class Stub:
+        def __init__(self, channel):
+            pass
+
+        def send(self, converted, metadata=None):
+            attempts.append(_t.monotonic())
+            raise grpc.RpcError()
+    saved = ps.SnapshotServiceStub, push_mod.convert_snapshot, api.load_plugins
+    ps.SnapshotServiceStub = Stub
+    push_mod.convert_snapshot = lambda s_: dict(id=s_.id)
+    api.load_plugins = lambda config, custom=None: []
+    old_sys, old_thr = sys.gettrace(), threading.gettrace()
+    try:
+        cfg = ConfigService({"APP_ROOT": "/app", "NO_TRACE": True, "SERVICE_URL": "localhost:1"}, tracepoints=TracepointConfigService())
+        d = api.Deep(cfg)
+        d.grpc.start = lambda: None
+        d.grpc.metadata = lambda: []
+        d.poll = type("Poll", (), {"start": lambda self: None, "shutdown": lambda self: None})()
+        d.start()
+        d.push.push_snapshot(type("S", (), {"id": 1})())
+        t0 = _t.monotonic()
+        d.shutdown()
+        t_down = _t.monotonic()
+        if t_down - t0 > 3.0:
+            _t.sleep(6.0)               # shutdown took suspiciously long: is something still being retried?
+        else:
+            _t.sleep(0.3)
+        late = [round(t - t_down, 1) for t in attempts if t > t_down]
+        j = dict(history="start; one snapshot handed over, the service refuses it (RpcError); shutdown", send_attempts=len(attempts),
+                 shutdown_took_s=round(t_down - t0, 1), send_attempts_after_shutdown_returned=late)
+        ctx.case(j, nontrivial=True, bucket="failing-delivery")
+        if late:
+            ctx.fail("the agent sent to the service %s s AFTER shutdown had returned (shutdown took %.1f s): a refused delivery is still "
+                     "being retried - it was not drained, and the agent still acts" % (late, t_down - t0), j, kind="schedule",
+                     tag="sends-after-shutdown")
+        try:
+            d.task_handler._pool.shutdown(wait=False)
+        except BaseException:
+            pass
+    finally:
+        ps.SnapshotServiceStub, push_mod.convert_snapshot, api.load_plugins = saved
+        sys.settrace(old_sys)
+        threading.settrace(old_thr)
+
+
 def e2_clear():
     from deep.thread_local import ThreadLocal
     ThreadLocal._ThreadLocal__store.clear()
@@ -495,6 +552,7 @@ def run(ctx):
     poll_in_flight(ctx)
     failed_start(ctx)
     notrace_from_environment(ctx)
+    failing_delivery_at_shutdown(ctx)
 
 
 def replay(ctx, data):
